@@ -11,6 +11,10 @@ from .naming import _sanitize_user_name
 _REPR_ROWS_DEFAULT = 12  # Global default for total rows shown (head+tail)
 MAX_HEAD_COLS = 5
 
+# Marks the gap between the first and last shown rows of a column preview. A private
+# object, compared by identity: data is never compared against it with ==.
+_ROW_GAP = object()
+
 
 def set_repr_rows(n: int | None):
 	"""Set the default number of rows shown in Table.__repr__.
@@ -83,14 +87,14 @@ def _format_column(col, max_preview: int | None = None) -> List[str]:
 	if len(vals) > max_preview * 2:
 		# (vals[-0:] would be the whole column, not the last zero rows)
 		tail = list(vals[-max_preview:]) if max_preview else []
-		preview = list(vals[:max_preview]) + ['...'] + tail
+		preview = list(vals[:max_preview]) + [_ROW_GAP] + tail
 	else:
 		preview = list(vals)
 
 	# Type-sensitive formatting
 	out = []
 	for v in preview:
-		if v == '...':
+		if v is _ROW_GAP:
 			out.append('...')
 		elif v is None:
 			out.append('None')
